@@ -289,6 +289,33 @@ def factsOf (r : AbsResp) (producedAt : Int) (issuer : Option Nat) : Facts :=
 /-- `Response.CheckSignatureFrom(issuer)` on a parsed response -/
 def checkSignatureFrom (f : Facts) : Bool := f.sigByIssuer
 
+/-! ## constants of the package -/
+
+/-- `Good, Revoked, Unknown, ServerFailed` -/
+def statusConsts : List Nat := [0, 1, 2, 3]
+/-- RFC 5280 CRLReason values the package names (7 is unassigned) -/
+def reasonConsts : List Nat := [0, 1, 2, 3, 4, 5, 6, 8, 9, 10]
+/-- `Success … Unauthorized` (4 is unused in OCSP) -/
+def respStatusConsts : List Nat := [0, 1, 2, 3, 5, 6]
+
+/-- `ResponseStatus.String()` -/
+def respStatusName (s : Int) : String :=
+  if s = 0 then "success" else if s = 1 then "malformed" else if s = 2 then "internal error"
+  else if s = 3 then "try later" else if s = 5 then "signature required" else if s = 6 then "unauthorized"
+  else "unknown OCSP status: " ++ toString s
+
+/-- the pre-serialised error responses `30 03 0A 01 xx`: name ↦ OCSPResponseStatus -/
+def errorResponseStatus : String → Option Int
+  | "MalformedRequestErrorResponse" => some 1
+  | "InternalErrorErrorResponse" => some 2
+  | "TryLaterErrorResponse" => some 3
+  | "SigRequredErrorResponse" => some 5
+  | "UnauthorizedErrorResponse" => some 6
+  | _ => none
+
+/-- an error response `SEQUENCE { ENUMERATED s }` as `ParseResponse` sees it -/
+def errorResponseFacts (s : Int) : Facts := { status := s, typeBasic := false, basicOk := false }
+
 /-! ## requests -/
 
 structure ReqFacts where
